@@ -143,11 +143,8 @@ class Sum(Factory, Container):
         # no possibility of exception from here on out (for rollback)
         self.entries += float(weights.sum())
 
-        import numpy
-
-        selection = numpy.isnan(q)
-        numpy.bitwise_not(selection, selection)
-        numpy.bitwise_and(selection, weights > 0.0, selection)
+        # like fill(): every row with positive weight contributes q * weight (a NaN quantity makes the sum NaN)
+        selection = weights > 0.0
         q = q[selection]
         weights = weights[selection]
         q = q * weights
